@@ -159,6 +159,13 @@ def main() -> int:
             run.notes.append(f"known finding {rid!r} no longer reproduces ({what}); its region is NOT excluded")
 
     items, info = build_items(run.tier, run.seed)
+    # adaptive alphabet: characters the live visitor introduces itself (e.g. a non-alphabet ESCAPE character) are added
+    # to the value alphabet of an extra family of programs whose needles contain them
+    extra = tv.discover_extra_alphabet(("sqlite",))
+    info["adaptive_alphabet"] = extra
+    for fam, term in G.adaptive_family(extra):
+        items.append({"name": f"p{len(items)}", "family": fam, "term": term, "mode": "abstract", "full": False,
+                      "values": None, "extra_alphabet": extra})
     timeout_ms = 10000 if quick else 60000
     for it in items:
         it["regions"] = active
